@@ -10,6 +10,10 @@ Unit variants: standard; non-standard unlock value (the unit stays locked after 
 (last accessible location below part of the value); DTR0 not advancing.  Faults change the ANSWER
 of one query (write echo or the final DTR0 check): NO, another byte, framing error.
 
+write_raw is also handed what is no byte string at all (the number instead of its bytes, None, text, floats, mappings,
+iterators, nested lists, lists with an element that is no byte value): it must fail loudly, never "succeed" after storing
+something the caller did not supply (case_badraw).
+
 Shares discovery / unit construction / the query-indexed fault bus with props/c09.py, including the
 values that check declares itself (non-contiguous, descending, scattered, mixed-type locations).
 """
@@ -29,10 +33,14 @@ RULE = ("(value class, data or value, allow_short_write / force_unlock / ignore_
         "patterns x lock byte x addressing, every unit variant (each shorter last location, several unlock values, DTR0 "
         "stuck), every fault kind at every write index and at the DTR0 check, every wrong length, value-level writes of "
         "what the value cannot hold (ints just and far below / above what its locations can represent, floats, strings, "
-        "None, bytes, lists for plain numbers; over-long, non-ASCII and non-str arguments for strings); plus Hypothesis-"
+        "None, bytes, lists for plain numbers; over-long, non-ASCII and non-str arguments for strings), write_raw with "
+        "what is no byte string where the raw bytes belong (ints equal to / below / above the value's length, 0, 255, 256, -1, "
+        "None, bools, floats, text, an object, dicts, generators / iterators, nested lists, lists and tuples with an element "
+        "256 / -1 / 1.5 / None / 'a' / 1.0 / a list at the first, a middle and the last position; with and without "
+        "allow_short_write; every value class, read-only ones included); plus Hypothesis-"
         "generated tuples; distinct by construction / by fingerprint; non-trivial = writable value with a fault, a "
         "non-standard unit, a lockable or multi-byte value, a short write, or a refusal (read-only / wrong length / "
-        "unstorable value); "
+        "unstorable value / data that is no byte string); "
         "several writes in flight: 2 or 3 such tuples (mostly one value class, different data / unit image / addressing) "
         "on separate buses and the order in which they advance command by command (listed orders + Hypothesis-drawn), "
         "non-trivial = the writes really overlap in time")
@@ -69,6 +77,17 @@ ASSUMPTIONS = [
     "infinity and non-numbers - must be refused (any exception) with nothing sent and memory untouched, also with "
     "ignore_feedback / force_unlock: storing other data instead is a silent failure.  The unchanged library refuses all of "
     "these; in-range numbers outside a value's min / max limits are accepted by it and not judged",
+    "write_raw takes 'a byte string of the permitted length' - bytes, bytearray, or a list / tuple of ints 0..255.  An object "
+    "that denotes no byte string - an int (the number instead of its bytes; bytes(n) would be n zero bytes), a bool, None, a "
+    "float, text, a plain object, a dict with keys that are no byte values, nested lists, a list / tuple / generator with an "
+    "element that is not an int in 0..255 - cannot be 'stored exactly': write_raw must raise (any exception), whatever the "
+    "options, and afterwards memory may differ from before only by the caller's own leading byte values at their locations "
+    "(the unchanged library writes location by location and stops at the first element it cannot send) and by the lock "
+    "byte (it unlocks before it looks at the elements); for a value with read-only locations nothing may be sent at all.  "
+    "An object that is no sequence but consists of byte values item by item (a generator / iterator of ints 0..255, a dict "
+    "with such keys) may be refused like that or stored item by item, one per location - nothing else.  The unchanged "
+    "library raises for every object of the first kind (TypeError from len(), ValueError from the command's parameter "
+    "check) and for generators / iterators",
     "a shorter bank never hides the lock byte of a lockable value (last accessible location >= 3 there)",
     "write sequences in flight at the same time on separate buses (one driver per DALI line in one process) are "
     "independent: each must satisfy the statement on its own unit, end the way it ends alone and leave the same memory",
@@ -147,7 +166,7 @@ def describe(case):
     s = "%s.%s(%s%s) via %s address %d, lock byte initially 0x%02x" % (
         case["key"], "write" if case["mode"] in ("value", "badvalue") else "write_raw",
         repr(case["value"]) if case["mode"] == "value" else _short_repr(bad_arg(case["arg"])) if case["mode"] == "badvalue"
-        else "[" + M.hexs(case["data"]) + "]",
+        else raw_arg_text(case["arg"]) if case["mode"] == "badraw" else "[" + M.hexs(case["data"]) + "]",
         "".join(", %s=%r" % (k, v) for k, v in option_kwargs(case).items()), case["addr"], case["short"], case["lock"])
     v = case.get("variant") or ["standard"]
     if v[0] != "standard":
@@ -324,11 +343,218 @@ def case_badvalue(case):
     return out
 
 
+# ------------------------------------------------- write_raw with data that is no byte string ----
+# write_raw() takes "the raw bytes".  What a caller hands over by mistake - the NUMBER instead of its bytes, None, text,
+# a float, a mapping, an iterator, a nested list, a list with an element that is no byte value - denotes no byte string,
+# so no "exactly those bytes" can be stored: the write has to fail.  An object that is not a sequence but whose items ARE
+# byte values (a generator / iterator of ints 0..255, a dict whose keys are such ints) may be refused or stored item by
+# item - nothing else.
+def raw_arg(spec):
+    """JSON form -> the object handed to write_raw as `raw`: ["int", n] | ["bool", b] | ["none"] | ["float", x] |
+    ["str", s] | ["object"] | ["dict", [[key, value], ...]] | ["gen" | "iter" | "list" | "tuple", [items]] with items
+    ints / floats / None / strings / nested lists"""
+    t = spec[0]
+    if t == "int":
+        if isinstance(spec[1], bool) or not isinstance(spec[1], int):
+            raise ValueError("raw-data spec %r" % (spec,))
+        return spec[1]
+    if t == "bool":
+        return bool(spec[1])
+    if t == "none":
+        return None
+    if t == "float":
+        return float(spec[1])
+    if t == "str":
+        if not isinstance(spec[1], str):
+            raise ValueError("raw-data spec %r" % (spec,))
+        return spec[1]
+    if t == "object":
+        return object()
+    if t == "dict":
+        return {k: v for k, v in spec[1]}
+    if t == "gen":
+        return (x for x in list(spec[1]))
+    if t == "iter":
+        return iter(list(spec[1]))
+    if t == "list":
+        return list(spec[1])
+    if t == "tuple":
+        return tuple(spec[1])
+    raise ValueError("raw-data spec %r" % (spec,))
+
+
+def raw_arg_text(spec):
+    t = spec[0]
+    if t in ("gen", "iter"):
+        return "<%s of %s>" % ("generator" if t == "gen" else "iterator", _short_repr(list(spec[1])))
+    if t == "object":
+        return "object()"
+    return _short_repr(raw_arg(spec))
+
+
+def _is_byte(x):
+    return isinstance(x, int) and 0 <= x <= 255           # (a bool is an int)
+
+
+def raw_denotes(spec):
+    """The byte values the object consists of item by item, or None when it denotes no byte string."""
+    t = spec[0]
+    if t in ("gen", "iter", "list", "tuple"):
+        return [int(x) for x in spec[1]] if all(_is_byte(x) for x in spec[1]) else None
+    if t == "dict":
+        keys = [k for k, _ in spec[1]]
+        return [int(k) for k in keys] if all(_is_byte(k) for k in keys) else None
+    return None
+
+
+def raw_category(spec):
+    """Why the object is no byte string (None: it is one item by item - then see raw_denotes)."""
+    t = spec[0]
+    if t in ("int", "bool", "none", "float", "object"):
+        return {"int": "an-int", "bool": "a-bool", "none": "None", "float": "a-float", "object": "an-object"}[t]
+    if t == "str":
+        return "a-str"
+    if raw_denotes(spec) is not None:
+        return None if t in ("list", "tuple") else "not-a-sequence-but-byte-items"
+    if t == "dict":
+        return "a-dict"
+    items = spec[1]
+    if any(isinstance(x, list) for x in items):
+        return "nested-list"
+    if any(isinstance(x, int) and not isinstance(x, bool) and not _is_byte(x) for x in items):
+        return "element-out-of-range"
+    return "element-not-an-int"
+
+
+def bad_raws_for(row):
+    """[(spec, allow_short_write)]: objects handed to write_raw where the raw bytes belong (see raw_category)."""
+    w = row["width"]
+    out = []
+    for n in dict.fromkeys([w, w - 1, w + 1, 0, 1, 2, 255, 256, -1, 2 * w, w + 7]):
+        out += [(["int", n], False), (["int", n], True)]
+    both = [["none"], ["bool", True], ["float", float(w)], ["str", "a" * w], ["gen", [1] * w], ["list", [[1]] * w],
+            ["list", [1] * (w - 1) + [256]], ["dict", [[chr(65 + i % 26) + str(i), i] for i in range(w)]]]
+    for spec in both:
+        out += [(spec, False), (spec, True)]
+    one = [["float", 1.5], ["bool", False], ["object"], ["str", "\x01" * w], ["str", "1"], ["str", ""], ["str", "a" * (w + 1)],
+           ["dict", [["a", 1]]], ["dict", []], ["iter", [0] * w], ["gen", [256] * w], ["gen", []], ["gen", [1] * (w + 1)],
+           ["list", [[1] * w]], ["list", [[]] * w], ["tuple", [[0]] * w], ["list", [[1, 2]] + [3] * (w - 1)]]
+    for bad in (256, -1, 1.5, None, "a", 1.0, 1 << 40, "1", [1]):
+        one.append(["list", [7] * (w - 1) + [bad]])
+        if w > 1:
+            one.append(["list", [bad] + [7] * (w - 1)])
+        if w > 2:
+            one.append(["tuple", [7] * (w // 2) + [bad] + [7] * (w - w // 2 - 1)])
+    if w > 1:
+        one += [["str", "a" * (w - 1)], ["list", [256]], ["list", [None] * (w - 1)], ["gen", [1] * (w - 1)]]
+    for i, spec in enumerate(one):
+        asw = bool(i % 2)
+        if asw and spec[0] in ("str", "dict", "gen", "iter", "list", "tuple") and len(spec[1]) == 0:
+            asw = False                 # a zero-length short write is not part of this check
+        out.append((spec, asw))
+    seen, res = [], []
+    for spec, asw in out:
+        if (spec, asw) not in seen and raw_category(spec) is not None:
+            seen.append((spec, asw))
+            res.append((spec, asw))
+    return res
+
+
+def case_badraw(case):
+    """{"mode": "badraw", "key": ..., "arg": spec, "asw": ..., addressing, lock, image, options}: write_raw with an object
+    that is no byte string.  It must not return normally - unless the object consists of byte values item by item and
+    exactly those are stored - and a refusal must not leave anything in memory but the caller's own leading bytes."""
+    L = M.lib()
+    row = M.all_rows()[case["key"]]
+    cls = L["classes"].get(case["key"])
+    if cls is None:
+        return []
+    spec_arg = case["arg"]
+    cat = raw_category(spec_arg)
+    if cat is None:
+        raise ValueError("a sequence of byte values is not a case of this mode: %r" % (case,))
+    den = raw_denotes(spec_arg)
+    asw = bool(case.get("asw"))
+    if asw and den is not None and len(den) == 0:
+        raise ValueError("zero-length short write is not part of the generator: %r" % (case,))
+    spec = M.bankspec(row["bankobj"])
+    locs = row["locs"]
+    is_writable = writable_row(row)
+    w = M.World(row["bankobj"], case["addr"], case["short"], case["image"], 0xFE, [], case["lock"])
+    bus = M.MemBus(w.units, fault=None, max_commands=60 + 6 * len(locs), watch=w.target)
+    where = describe(case)
+    addr = M.make_addr(case["addr"], case["short"])
+    err = None
+    try:
+        bus.run(cls.write_raw(addr, raw_arg(spec_arg), **option_kwargs(case)))
+    except NonTermination:
+        return [("C10:nontermination", "%s: more than %d commands" % (where, bus.max_commands))]
+    except Exception as e:  # noqa: any exception is a refusal
+        if library_frame(e.__traceback__) is None:
+            raise
+        err = e
+    out = []
+    before, after = w.image, w.bank.contents
+    hold = lambda img: M.hexs([img[a] for a in locs])       # noqa
+    unlocks = bool(case.get("force_unlock")) or lockable_row(row)
+    if err is None:
+        if den is None:
+            LAST_OUTCOME[0] = "outcome:unstorable-data-accepted"
+            return [("C10:unstorable-data-accepted:" + cat, "%s returned normally after %d commands although the data is no byte "
+                     "string (%s); the value's %d location(s) held [%s] and now hold [%s]"
+                     % (where, bus.n, cat, len(locs), hold(before), hold(after)))]
+        n = len(den)
+        if not is_writable:
+            return [("C10:readonly-not-refused", "%s returned normally although the value has read-only locations" % where)]
+        if not (n == len(locs) or (asw and 1 <= n <= len(locs))):
+            return [("C10:wrong-length-accepted", "%s returned normally although %d items do not fit %d locations"
+                     % (where, n, len(locs)))]
+        exp = list(before)
+        for loc, b in zip(locs, den):
+            exp[loc] = b
+        skip2 = spec["has_lock_byte"] and 2 not in locs[:n] and unlocks
+        wrong = [i for i in range(M.NLOC) if after[i] != exp[i] and not (skip2 and i == 2)]
+        if wrong:
+            out.append(("C10:data-not-stored", "%s returned normally but location(s) %s differ from the items stored one per "
+                        "location: [%s], expected [%s]" % (where, ["0x%02x" % i for i in wrong[:6]],
+                                                           M.hexs([after[i] for i in wrong[:6]]), M.hexs([exp[i] for i in wrong[:6]]))))
+        if w.others_changed():
+            out.append(("C10:other-unit-changed", "%s changed the memory of %s" % (where, w.others_changed())))
+        LAST_OUTCOME[0] = "outcome:byte-items-stored"
+        return out
+    LAST_OUTCOME[0] = "outcome:refused-unstorable-data"
+    if not is_writable:
+        if bus.n > 0:
+            out.append(("C10:sent-before-refusing", "%s: %d command(s) were sent before the write was refused with %r (the value "
+                        "has read-only locations)" % (where, bus.n, err)))
+        if after != before or w.others_changed():
+            out.append(("C10:refused-write-changed-memory", "%s: memory changed although the write had to be refused" % where))
+        return out
+    # what a refused write may have left behind: the caller's own leading byte values, each at its location
+    items = spec_arg[1] if spec_arg[0] in ("list", "tuple") else (den or [])
+    allowed = {}
+    for loc, x in zip(locs, items):
+        if not _is_byte(x):
+            break
+        allowed[loc] = int(x)
+    bad = [i for i in range(M.NLOC) if after[i] != before[i] and not (i in allowed and after[i] == allowed[i])
+           and not (i == 2 and spec["has_lock_byte"] and 2 not in locs)]
+    if bad:
+        out.append(("C10:refused-write-changed-memory", "%s was refused with %r but location(s) %s changed: [%s] -> [%s] - not "
+                    "bytes the caller supplied (%s)" % (where, err, ["0x%02x" % i for i in bad[:6]], M.hexs([before[i] for i in bad[:6]]),
+                                                        M.hexs([after[i] for i in bad[:6]]), cat)))
+    if w.others_changed():
+        out.append(("C10:other-unit-changed", "%s changed the memory of %s" % (where, w.others_changed())))
+    return out
+
+
 def run_case(case):
     if case.get("kind") == "interleaved":
         return case_interleaved(case)
     if case.get("mode") == "badvalue":
         return case_badvalue(case)
+    if case.get("mode") == "badraw":
+        return case_badraw(case)
     g = _case_steps(case)
     try:
         bus, seq = next(g)
@@ -622,6 +848,10 @@ def features(case):
     if case["mode"] == "badvalue":
         f.append("value-level")
         f.append("unstorable-value:%s" % bad_category(row, case["arg"]))
+    if case["mode"] == "badraw":
+        f.append("unstorable-data:%s" % raw_category(case["arg"]))
+        if case.get("asw"):
+            f.append("unstorable-data:allow-short-write")
     if case.get("ignore_feedback"):
         f.append("ignore-feedback")
     if case.get("force_unlock"):
@@ -636,7 +866,7 @@ def is_nontrivial(case):
         # known once the case has run: did the sequences overlap in time at all?
         return LAST_INTER[0] is not None and LAST_INTER[0][0] == id(case) and LAST_INTER[0][1]
     f = features(case)
-    return any(x.startswith(("fault:", "variant:", "unstorable-value:")) or x in ("lockable", "multi-byte", "short-write", "wrong-length",
+    return any(x.startswith(("fault:", "variant:", "unstorable-value:", "unstorable-data:")) or x in ("lockable", "multi-byte", "short-write", "wrong-length",
                                                              "read-only") for x in f)
 
 
@@ -654,7 +884,7 @@ def _case(key, data, addr="gear", short=5, lock=0xFF, mode="raw", value=None, as
         c["spell"] = dict(spell)        # option field -> style in which it is handed over (see option_kwargs)
     if mode == "value":
         c["value"] = value
-    elif mode == "badvalue":
+    elif mode in ("badvalue", "badraw"):
         c["arg"] = list(value)
     else:
         c["data"] = list(data)
@@ -745,6 +975,9 @@ def _shard_keys(arg):
             run(C(pats[1][:1], asw=True), "read-only")
             for v in values_for(row, seed)[:3]:
                 run(C(None, mode="value", value=v), "read-only")
+            # ... also when the data is no byte string at all
+            for bi, (spec, asw) in enumerate(bad_raws_for(row)[(seed + ki) % 4::4]):
+                run(C(None, mode="badraw", value=spec, asw=asw, addr=ADDRS[(bi + ki) % 3], lock=LOCKS[bi % 3]), "read-only")
             # options handed over as objects that are not bools: refused all the same
             styles = M.spell_styles(True, seed + ki + row["first"])
             for si, (field, _) in enumerate(OPTIONS):
@@ -822,6 +1055,12 @@ def _shard_keys(arg):
             k = bi + ki + seed
             fl = [{}, {}, {"ignore_feedback": True}, {"force_unlock": 2 not in locs}, {}][k % 5]
             run(C(None, mode="badvalue", value=spec, addr=ADDRS[k % 3], lock=LOCKS[(k // 3) % 3], **fl), "unstorable-value")
+        # write_raw with something that is no byte string where the raw bytes belong (the number itself, None, text, a
+        # float, a mapping, an iterator, nested lists, elements that are no byte values)
+        for bi, (spec, asw) in enumerate(bad_raws_for(row)):
+            k = bi + ki + seed
+            fl = [{}, {}, {"ignore_feedback": True}, {"force_unlock": 2 not in locs}, {}][k % 5]
+            run(C(None, mode="badraw", value=spec, asw=asw, addr=ADDRS[k % 3], lock=LOCKS[(k // 3) % 3], **fl), "unstorable-data")
         # unit variants
         variants = [["no_dtr0_inc"]]
         for uv in (0x00, 0xFF, 0x54, 0xAA, 0x56):
@@ -973,6 +1212,43 @@ def bad_st(draw, wkeys):
 
 
 @st.composite
+def badraw_st(draw, wkeys, rokeys):
+    """write_raw with an object that is no byte string."""
+    key = draw(st.one_of(st.sampled_from(wkeys), st.sampled_from(wkeys), st.sampled_from(wkeys), st.sampled_from(rokeys)))
+    row = M.all_rows()[key]
+    w = row["width"]
+    listed = st.sampled_from(bad_raws_for(row))
+    byte = st.integers(0, 255)
+    notbyte = st.one_of(st.sampled_from([256, -1, 1.5, None, "a", "", [1], [], 1 << 70, -256, 0.0]), st.integers(256, 70000),
+                        st.integers(-70000, -1), st.floats(allow_nan=False, allow_infinity=False, width=32),
+                        st.text(st.characters(min_codepoint=0x20, max_codepoint=0x7E), max_size=2), st.lists(byte, max_size=3))
+    ln = st.one_of(st.just(w), st.just(w), st.integers(1, w + 2))
+
+    @st.composite
+    def spoiled(draw_):
+        n = draw_(ln)
+        items = draw_(st.lists(byte, min_size=n, max_size=n))
+        for _ in range(draw_(st.integers(1, 2))):
+            items[draw_(st.integers(0, n - 1))] = draw_(notbyte)
+        return [draw_(st.sampled_from(["list", "tuple", "list", "gen"])), items]
+    spec, asw = draw(st.one_of(
+        listed,
+        st.tuples(st.one_of(st.integers(-3, w + 9).map(lambda n: ["int", n]), st.integers(0, 300).map(lambda n: ["int", n]),
+                            st.floats(allow_nan=False, allow_infinity=False, width=32).map(lambda x: ["float", x]),
+                            st.text(st.characters(min_codepoint=1, max_codepoint=0x7E), min_size=1, max_size=w + 2).map(lambda t: ["str", t]),
+                            spoiled(),
+                            st.tuples(st.sampled_from(["gen", "iter"]), st.lists(byte, min_size=1, max_size=w + 2)).map(list)),
+                  st.booleans())))
+    if raw_category(spec) is None:
+        spec, asw = draw(listed)
+    fl = dict(ignore_feedback=draw(st.sampled_from([False, False, True])),
+              force_unlock=draw(st.sampled_from([False, False, True])) and 2 not in row["locs"])
+    return _case(key, None, addr=draw(st.sampled_from(ADDRS)), short=draw(st.integers(0, 63)),
+                 lock=draw(st.sampled_from(LOCKS)), mode="badraw", value=spec, asw=asw,
+                 image=draw(st.sampled_from([["prng", 1], ["prng", 2], "ff", "00", "ramp"])), spell=draw(_SPELL_ST), **fl)
+
+
+@st.composite
 def inter_st(draw, wkeys, rokeys):
     """Two or three writes in flight: the first drawn freely, the others mostly of the same value class with other data,
     another unit image, address and lock byte; plus the order in which they advance."""
@@ -1015,6 +1291,8 @@ def _shard_hyp(arg):
                classify=lambda c: ["hyp:interleaved"] + features(c), extra_rounds_budget_s=15.0)
     hyp.search(bad_st(wkeys), run_case, res, max(1, n // 10), seed + 5, ID, nontrivial=is_nontrivial,
                classify=lambda c: ["hyp:unstorable-value"] + features(c))
+    hyp.search(badraw_st(wkeys, rokeys), run_case, res, max(1, n // 10), seed + 7, ID, nontrivial=is_nontrivial,
+               classify=lambda c: ["hyp:unstorable-data"] + features(c))
     return res
 
 
